@@ -21,7 +21,6 @@
    OUT OF OR IN CONNECTION WITH THE SOFTWARE OR THE USE OR OTHER DEALINGS IN
    THE SOFTWARE.
 """
-import struct
 import traceback
 
 # pylint: disable=unused-import
@@ -29,7 +28,7 @@ from typing import Dict, List, Set, Sequence, Tuple, Iterable  # noqa: F401
 from typing import Callable, Optional, Union, Any  # noqa: F401
 
 from ssh_audit.banner import Banner
-from ssh_audit.kexdh import KexDHException, KexGroupExchange, KexGroupExchange_SHA1, KexGroupExchange_SHA256
+from ssh_audit.kexdh import KexGroupExchange, KexGroupExchange_SHA1, KexGroupExchange_SHA256
 from ssh_audit.ssh2_kexdb import SSH2_KexDB
 from ssh_audit.ssh2_kex import SSH2_Kex
 from ssh_audit.ssh_socket import SSH_Socket
@@ -66,7 +65,7 @@ class GEXTest:
             # Parse the server's KEX.
             _, payload = s.read_packet(2)
             SSH2_Kex.parse(out, payload)
-        except (KexDHException, struct.error):
+        except Exception:  # Any error while parsing a misbehaving server's reply only fails this probe, not the whole audit.
             out.v("Failed to parse server's kex.  Stack trace:\n%s" % str(traceback.format_exc()), write_now=True)
             return False
 
@@ -228,7 +227,7 @@ class GEXTest:
                 kex_group.recv_reply(s, False)
                 smallest_modulus = kex_group.get_dh_modulus_size()
                 out.d('GEXTest._send_init(%s, %u, %u, %u): received modulus size: %d' % (gex_alg, min_bits, pref_bits, max_bits, smallest_modulus), write_now=True)
-        except KexDHException as e:
+        except Exception as e:  # Any error while talking to (or parsing the reply of) a misbehaving server only fails this probe, not the whole audit.
             out.d('GEXTest._send_init(%s, %u, %u, %u): exception when performing DH group exchange init: %s' % (gex_alg, min_bits, pref_bits, max_bits, str(e)), write_now=True)
         finally:
             s.close()
